@@ -1,6 +1,7 @@
 import Driver.Util
 import QsmtpModel.Vpop
 import QsmtpModel.Spec.Mailbox
+import QsmtpModel.Gen.Netio
 open QsmtpModel QsmtpModel.Vpop
 namespace Driver.Ops.Vpop
 
@@ -36,17 +37,18 @@ def parseEntries (s : String) (base parent : Nat) : Option (List Rec) :=
         pure (acc ++ [⟨base + 2 * i, parent, name, false, cont⟩])
     | _ => none
 
-/-- path:errno,...  ("#read" = read error) -/
-def parseInject (s : String) : Option (List (List Byte × Nat) × Option Nat) :=
-  if s = "-" then some ([], none) else
-  (s.splitOn ",").foldlM (init := ([], none)) fun (acc, rd) e =>
+/-- path:errno,...  ("#read" = read error, "#mmap" = mmap error) -/
+def parseInject (s : String) : Option (List (List Byte × Nat) × Option Nat × Option Nat) :=
+  if s = "-" then some ([], none, none) else
+  (s.splitOn ",").foldlM (init := ([], none, none)) fun (acc, rd, mm) e =>
     match e.splitOn ":" with
     | [p, n] => do
       let errno ← n.toNat?
-      if p = "#read" then pure (acc, some errno)
+      if p = "#read" then pure (acc, some errno, mm)
+      else if p = "#mmap" then pure (acc, rd, some errno)
       else do
         let path ← fromHex p
-        pure (acc ++ [(path, errno)], rd)
+        pure (acc ++ [(path, errno)], rd, mm)
     | _ => none
 
 def parseCdb (s : String) : Option Cdb :=
@@ -71,6 +73,7 @@ structure Req where
   env : Env
   recs : List Rec
   benign : Bool
+  twice : Bool
 
 def mkReq (a : List String) : Option Req :=
   match a with
@@ -83,9 +86,10 @@ def mkReq (a : List String) : Option Req :=
     let cdb ← parseCdb cdb
     let des ← parseEntries de 100 5
     let pes ← parseEntries pe 10000 4
-    let (inj, rd) ← parseInject inj
+    let (inj, rd, mm) ← parseInject inj
     let fixed : List Rec := [⟨1, 0, [], true, []⟩, ⟨2, 1, strB "users", true, []⟩, ⟨3, 1, strB "control", true, []⟩,
-      ⟨4, 1, strB "doms", true, []⟩, ⟨5, 4, strB "dom", true, []⟩]
+      ⟨4, 1, strB "doms", true, []⟩, ⟨5, 4, strB "dom", true, []⟩] ++
+      (if (fl / 4) % 2 = 1 then [⟨8, 3, Spec.Mailbox.filterconf, false, strB "global\n"⟩] else [])
     let recs := fixed ++ des ++ pes
     let find (id : Nat) : Option Rec := recs.find? (·.id = id)
     let pathInj := inj.find? (fun p => SLASH ∈ p.1 ∧ p.1 ≠ usersCdb)
@@ -107,10 +111,14 @@ def mkReq (a : List String) : Option Req :=
               | none => .absent }
     let cdb := match inj.find? (fun p => p.1 = usersCdb) with
       | some p => Cdb.openFails p.2
-      | none => cdb
-    let benign : Bool := inj.isEmpty && rd.isNone && fl % 2 == 0 &&
+      | none =>
+        match mm, cdb with
+        | some e, .table _ => Cdb.mapFails e
+        | some e, .raw (_ :: _) => Cdb.mapFails e
+        | _, c => c
+    let benign : Bool := inj.isEmpty && rd.isNone && mm.isNone && fl % 2 == 0 &&
       (match cdb with | .table _ => true | .raw _ => true | .empty => true | .openFails e => e == ENOENT | _ => false)
-    pure ⟨loc, tail, domain, ⟨tree, 1, 3, cdb, loadVpopbounce vp, fl % 2 = 1⟩, recs, benign⟩
+    pure ⟨loc, tail, domain, ⟨tree, 1, 3, cdb, loadVpopbounce vp, fl % 2 = 1⟩, recs, benign, (fl / 2) % 2 = 1⟩
   | _ => none
 
 def pathOf (recs : List Rec) : Nat → Nat → List Byte
@@ -128,17 +136,20 @@ def showNode (recs : List Rec) : Option Nat → String
 def showEvs (recs : List Rec) (evs : List Ev) : String :=
   if evs.isEmpty then "-" else ",".intercalate (evs.map fun e => hexOrDash (pathOf recs 8 e.1) ++ ":" ++ hexOrDash e.2)
 
+def showGf (q : Req) (o : Out) (global : Bool) : String :=
+  if o.res > 0 ∧ o.res ≠ 5 then
+    let g := getfile q.env o.ds Spec.Mailbox.filterconf global 0
+    match g.res with
+    | .ok n => s!"{g.type}:" ++ hexOrDash (pathOf q.recs 8 n)
+    | .error e => s!"{g.type}:E{e}"
+  else "-"
+
 def runUe (q : Req) : String :=
-  let o := userExists Cfg.src q.env Ds.init q.loc q.tail q.domain
-  if o.res = -1000000 then "FAULT" else
-  let gf :=
-    if o.res > 0 ∧ o.res ≠ 5 then
-      let g := getfile q.env o.ds Spec.Mailbox.filterconf false 0
-      match g.res with
-      | .ok n => s!"{g.type}:" ++ hexOrDash (pathOf q.recs 8 n)
-      | .error e => s!"{g.type}:E{e}"
-    else "-"
-  s!"r={o.res} dp={hexOrDash o.ds.domainpath} dom={showNode q.recs o.ds.domaindir} usr={showNode q.recs o.ds.userdir} ec={o.ec} gf={gf} opened={showEvs q.recs o.evs}"
+  let o1 := userExists Cfg.src q.env Ds.init q.loc q.tail q.domain
+  let o := if q.twice then userExists Cfg.src q.env o1.ds q.loc q.tail q.domain else o1
+  let leak := if q.twice then leakedFds Cfg.src q.env o1.ds q.loc q.domain else 0
+  if o.res = -1000000 ∨ o1.res = -1000000 then "FAULT" else
+  s!"r={o.res} dp={hexOrDash o.ds.domainpath} dom={showNode q.recs o.ds.domaindir} usr={showNode q.recs o.ds.userdir} ec={o.ec} gf={showGf q o false} gg={showGf q o true} opened={showEvs q.recs o.evs} fdleak={leak}"
 
 def unhexOpt (s : String) : Option (Option (List Byte)) :=
   if s = "-" then some none else (fromHex s).map some
@@ -153,6 +164,10 @@ def parseObs (toks : List String) : Option Spec.Mailbox.Obs := do
   let gf ← (match gfs.splitOn ":" with
     | [_, p] => if p.startsWith "E" then some none else (fromHex p).map some
     | _ => some none)
+  let ggs ← get "gg"
+  let gg ← (match ggs.splitOn ":" with
+    | [_, p] => if p.startsWith "E" then some none else (fromHex p).map some
+    | _ => some none)
   let os ← get "opened"
   let opened ← (if os = "-" then some [] else (os.splitOn ",").mapM fun e =>
     match e.splitOn ":" with
@@ -161,7 +176,7 @@ def parseObs (toks : List String) : Option Spec.Mailbox.Obs := do
       let n ← fromHex n
       pure (d, n)
     | _ => none)
-  pure ⟨r, dom, usr, gf, opened⟩
+  pure ⟨r, dom, usr, gf, gg, opened⟩
 
 def runChk (q : Req) (o : Spec.Mailbox.Obs) : String :=
   -- the domain directory the configuration names for this domain (config resolution is not what
@@ -179,7 +194,8 @@ def runChk (q : Req) (o : Spec.Mailbox.Obs) : String :=
       | .node n => q.env.tree.isDir n
       | _ => false)
     | none => false
-  let benign : Bool := q.benign && (v.res == 0 || v.res == 1) && !oddCatchAll
+  -- local parts that do not fit a command line cannot reach user_exists(): confinement only
+  let benign : Bool := q.benign && (v.res == 0 || v.res == 1) && !oddCatchAll && q.loc.length < Gen.lineinbufSize
   Spec.Mailbox.checkObs q.env.tree dd inCdb benign q.env.vpopbounce q.loc o
 
 def handle (op : String) (args : List String) : Option String :=
